@@ -255,6 +255,26 @@ impl Property for Soundness {
                 let program = matrix::binary_program(x.ty, y.ty, BINARY[idx("t") % BINARY.len()]);
                 self.check_function(&program, &[x.values, y.values], stats)
             }
+            "unary-own" => {
+                // the parameter is spelled like the function: inside the body the name means the parameter
+                let x = matrix::operand(idx("x"));
+                let body = UNARY[idx("t") % UNARY.len()].replace('X', "f");
+                let body = if body.contains("r :=") { format!("{body}; return r;") } else { format!("{body}; return 0;") };
+                let program = format!("f := (f: {}) -> any {{ {body} }}", x.ty);
+                self.check_function(&program, &[x.values], stats)
+            }
+            "std-unary" => {
+                let x = matrix::operand(idx("x"));
+                let path = case["path"].as_str().unwrap_or("std.len");
+                let program = format!("f := (x: {}) -> any {{ r := {path}(x); return r; }}", x.ty);
+                self.check_function(&program, &[x.values], stats)
+            }
+            "std-binary" => {
+                let (x, y) = (matrix::operand(idx("x")), matrix::operand(idx("y")));
+                let path = case["path"].as_str().unwrap_or("std.len");
+                let program = format!("f := (x: {}, y: {}) -> any {{ r := {path}(x, y); return r; }}", x.ty, y.ty);
+                self.check_function(&program, &[x.values, y.values], stats)
+            }
             "program" | "near-miss" => {
                 let text = &crate::genr::case::materialise(case["text"].as_str().unwrap_or(""), case);
                 let text = text.as_str();
@@ -296,6 +316,36 @@ pub fn run(session: &Session, prop: &'static Soundness) -> i32 {
             cases.push(json!({"kind": "unary", "x": x, "t": t}));
         }
     }
+    for x in 0..CATALOGUE.len() {
+        for t in (0..UNARY.len()).step_by(2) {
+            cases.push(json!({"kind": "unary-own", "x": x, "t": t}));
+        }
+    }
+    // every pure std function applied to parameters of the catalogue types: the declared result
+    // type is what the checker believes about the call
+    let small: Vec<usize> = CATALOGUE
+        .iter()
+        .enumerate()
+        .filter(|(_, o)| matches!(o.ty, "int" | "float" | "string" | "bool" | "int|float" | "[int]" | "[string]" | "any"))
+        .map(|(i, _)| i)
+        .collect();
+    for (path, arity) in crate::props::c18::pure_functions() {
+        match arity {
+            1 => {
+                for x in 0..CATALOGUE.len() {
+                    cases.push(json!({"kind": "std-unary", "x": x, "path": path}));
+                }
+            }
+            2 => {
+                for x in &small {
+                    for y in &small {
+                        cases.push(json!({"kind": "std-binary", "x": x, "y": y, "path": path}));
+                    }
+                }
+            }
+            _ => {}
+        }
+    }
     for text in crate::props::c03::corpus() {
         cases.push(json!({"kind": "program", "text": text}));
     }
@@ -307,6 +357,12 @@ pub fn run(session: &Session, prop: &'static Soundness) -> i32 {
     }
     for text in crate::genr::nearmiss::never_iterator_programs() {
         cases.push(json!({"kind": "program", "text": text}));
+    }
+    for text in crate::genr::nearmiss::binder_scope_programs() {
+        cases.push(json!({"kind": "near-miss", "text": text}));
+    }
+    for text in crate::genr::nearmiss::literal_spelling_programs() {
+        cases.push(json!({"kind": "near-miss", "text": text}));
     }
     for text in crate::genr::nearmiss::cell_widening_programs() {
         cases.push(json!({"kind": "near-miss", "text": text}));
@@ -365,8 +421,23 @@ pub fn run_cells(session: &Session) {
                 }
             }
             for t in 0..BINARY.len() {
-                if BINARY[t].contains(" = ") || BINARY[t].contains("+=") {
+                if BINARY[t].contains(" = ") || BINARY[t].contains("+=") || BINARY[t].contains("X(Y") {
                     cases.push(json!({"kind": "binary", "x": x, "y": y, "t": t}));
+                }
+            }
+        }
+    }
+    // calls: a function (or a union of functions) over cells applied to every cell / array of cells
+    for (x, fx) in CATALOGUE.iter().enumerate() {
+        if !(fx.ty.contains("->") && fx.ty.contains("mut")) {
+            continue;
+        }
+        for (y, cy) in CATALOGUE.iter().enumerate() {
+            if cy.ty.contains("mut") && !cy.ty.contains("->") {
+                for (t, template) in BINARY.iter().enumerate() {
+                    if template.contains("X(Y") {
+                        cases.push(json!({"kind": "binary", "x": x, "y": y, "t": t}));
+                    }
                 }
             }
         }
